@@ -926,6 +926,9 @@ func (runInfo *runInfoStruct) runDeleteStmt(stmt *ast.DeleteStmt) {
 
 	switch item.Kind() {
 	case reflect.String:
+		if stmt.Key != nil && runInfo.rv.Kind() == reflect.Interface && !runInfo.rv.IsNil() {
+			runInfo.rv = runInfo.rv.Elem()
+		}
 		if stmt.Key != nil && runInfo.rv.Kind() == reflect.Bool && runInfo.rv.Bool() {
 			runInfo.env.DeleteGlobal(item.String())
 			runInfo.rv = nilValue
